@@ -16,7 +16,10 @@ import (
 	"strings"
 	"sync"
 	"sync/atomic"
+	"testing"
 	"time"
+
+	"pgregory.net/rapid"
 )
 
 // ---------------------------------------------------------------- history
@@ -649,3 +652,144 @@ func (o *vpC04Origin) respond(s *vpC04SrvConn, ci int, r *vpC04Req, gone <-chan 
 type vpC04Discard struct{}
 
 func (vpC04Discard) Printf(string, ...any) {}
+
+// ---------------------------------------------------------------- helpers shared by C04 / C18 / C38
+
+func vpC04Weighted(t *rapid.T, label string, vals []int, weights []int) int {
+	tot := 0
+	for _, w := range weights {
+		tot += w
+	}
+	x := rapid.IntRange(0, tot-1).Draw(t, label)
+	for i, w := range weights {
+		if x < w {
+			return vals[i]
+		}
+		x -= w
+	}
+	return vals[len(vals)-1]
+}
+
+
+func vpC04HostCleanerStopped(hc *HostClient) bool {
+	hc.connsLock.Lock()
+	defer hc.connsLock.Unlock()
+	return !hc.connsCleanerRun && hc.connsCount == 0
+}
+
+func vpC04PipelineRetired(pc *PipelineClient) bool {
+	pc.connClientsLock.Lock()
+	ccs := append([]*pipelineConnClient(nil), pc.connClients...)
+	pc.connClientsLock.Unlock()
+	for _, cc := range ccs {
+		cc.chLock.Lock()
+		live := cc.chs != nil
+		cc.chLock.Unlock()
+		if live {
+			return false
+		}
+	}
+	return true
+}
+
+// vpC04QuiescePipeline lets the PipelineClient's workers retire: they only stop after an idle
+// period on a healthy connection, so the origin keeps answering (promptly) until they are gone.
+func vpC04QuiescePipeline(pc *PipelineClient, o *vpC04Origin, max time.Duration) bool {
+	o.drain.Store(true)
+	dl := time.Now().Add(max)
+	for !vpC04PipelineRetired(pc) {
+		if time.Now().After(dl) {
+			return false
+		}
+		time.Sleep(2 * time.Millisecond)
+	}
+	return true
+}
+
+
+// vpC04Report keeps the detailed report of the last failing execution: rapid only shrinks when a
+// re-run fails with the identical message, so the message passed to Fatalf has to be stable and
+// the (timestamped, schedule-dependent) history is printed separately.
+type vpC04Report struct {
+	mu     sync.Mutex
+	detail string
+}
+
+func (r *vpC04Report) set(s string) {
+	r.mu.Lock()
+	r.detail = s
+	r.mu.Unlock()
+}
+
+func (r *vpC04Report) flush(t *testing.T) {
+	r.mu.Lock()
+	defer r.mu.Unlock()
+	if t.Failed() && r.detail != "" {
+		t.Logf("recorded history of the last failing execution:\n%s", r.detail)
+	}
+}
+
+
+// ---------------------------------------------------------------- heartbeat (load-adaptive deadlines)
+
+// vpC04Beat measures when the process was demonstrably unable to run a goroutine that only sleeps
+// 0.5 ms at a time (CPU starvation on a busy box, stop-the-world pauses, cgroup throttling). The
+// deadline oracles of C18/C38 subtract that lost time from a call's elapsed time before comparing
+// it with budget + slack: on a quiet machine nothing is subtracted, on an overloaded one the
+// check becomes more lenient instead of raising false alarms.
+type vpC04Beat struct {
+	mu   sync.Mutex
+	gaps [][2]time.Time
+	stop chan struct{}
+	done chan struct{}
+}
+
+func vpC04StartBeat() *vpC04Beat {
+	b := &vpC04Beat{stop: make(chan struct{}), done: make(chan struct{})}
+	go func() {
+		defer close(b.done)
+		const period = 500 * time.Microsecond
+		last := time.Now()
+		for {
+			select {
+			case <-b.stop:
+				return
+			default:
+			}
+			time.Sleep(period)
+			now := time.Now()
+			if now.Sub(last) > 4*period {
+				b.mu.Lock()
+				b.gaps = append(b.gaps, [2]time.Time{last.Add(period), now})
+				b.mu.Unlock()
+			}
+			last = now
+		}
+	}()
+	return b
+}
+
+func (b *vpC04Beat) end() {
+	close(b.stop)
+	<-b.done
+}
+
+// lost returns how much of [t0, t1] the heartbeat was overdue.
+func (b *vpC04Beat) lost(t0, t1 time.Time) time.Duration {
+	b.mu.Lock()
+	defer b.mu.Unlock()
+	var d time.Duration
+	for _, g := range b.gaps {
+		from, to := g[0], g[1]
+		if from.Before(t0) {
+			from = t0
+		}
+		if to.After(t1) {
+			to = t1
+		}
+		if to.After(from) {
+			d += to.Sub(from)
+		}
+	}
+	return d
+}
